@@ -290,6 +290,14 @@ class Ref:
                         and any(any(x[1] == scope_id[1] and x[2] > scope_id[2] for x in oneof_ids(sc)) for sc in others):
                     # ... and by a later candidate of the same one-of
                     self.tags.add('oneof.later-candidate-shares-private-node-with-failed-one')
+        if 'rec.iterated' in self.tags:
+            for dest, (start, mx) in self.rec_of.items():
+                region = {x for x in self.nodes if (x == start or start in self.anc[x]) and (x == dest or x in self.anc[dest])}
+                users = {c for role, c in self.consumers.get(dest, [])}
+                for n in region | users:
+                    if len({tuple(x[:2] for x in sc) for sc in self.requested.get(n, set())}) > 1:
+                        # a node of a re-iterated region is demanded from two scopes (main pipeline + case / candidate sub-pipeline)
+                        self.tags.add('rec.region-node-requested-from-two-scopes')
         values = {n: v[1] for n, v in self.memo.items() if v[0] == 'ok'}
         return RefResult(outcome=outcome, invocations=self.inv, certain=certain, touched=touched,
                          defaults=self.defaults, tags=self.tags | S.static_tags(self.spec) | structure_tags(self.spec),
